@@ -4,7 +4,7 @@
 
     Strings are lists of 8-bit characters (code points 0..255, i.e. ASCII plus Latin-1; the
     generators stay in that range).  Lengths are integers ([Z]) as in Python. *)
-From Coq Require Import ZArith List Bool String Ascii NArith.
+From Coq Require Import ZArith List Bool String Ascii NArith Uint63.
 Import ListNotations.
 Open Scope Z_scope.
 
@@ -158,9 +158,29 @@ Fixpoint join_res (sof : item -> res str) (sp : str) (its : list item) : res str
     end
   end.
 
-(** ** [_add_item_to_line], [__str__], [_to_str]: mutual recursion, explicit fuel.
-    [to_str] returns the text and, when [stop_on_continuation] fired, the remaining items
+(** The item loop of [_to_str]; [add] is [self._add_item_to_line], [sof] is [str].
+    Returns the text and, when [stop_on_continuation] fired, the remaining items
     (the new JoinableStringList has the same parameters). *)
+Fixpoint to_str_loop (add : str -> item -> res (str * list str)) (sof : item -> res str) (sp : str) (stop : bool)
+         (rem : list item) (line : str) (lines : list str) {struct rem} : res (str * option (list item)) :=
+  match rem with
+  | [] => Ok (List.concat lines ++ line, None)
+  | it :: rest =>
+    match sof it with
+    | Err e => Err e
+    | Ok s =>
+      if is_nil s then to_str_loop add sof sp stop rest line lines else
+      let sp' := match rest with [] => [] | _ => sp end in
+      match add line (add_sfx it sp') with
+      | Err e => Err e
+      | Ok (line', ls) =>
+        if stop && negb (is_nil ls) then Ok (line, Some rem)
+        else to_str_loop add sof sp stop rest line' (lines ++ ls)
+      end
+    end
+  end.
+
+(** ** [_add_item_to_line], [__str__], [_to_str]: mutual recursion, explicit fuel. *)
 Fixpoint add_item (fuel : nat) (p : P) (line : str) (it : item) {struct fuel} : res (str * list str) :=
   match it with
   | IStr s => Ok (add_str p line s)
@@ -211,24 +231,7 @@ with to_str (fuel : nat) (q : P) (its : list item) (line0 : str) (stop : bool) {
   | S f =>
     match its with
     | [] => Ok ([], None)
-    | _ =>
-      (fix loop (rem : list item) (line : str) (lines : list str) {struct rem} : res (str * option (list item)) :=
-         match rem with
-         | [] => Ok (List.concat lines ++ line, None)
-         | it :: rest =>
-           match str_of f it with
-           | Err e => Err e
-           | Ok s =>
-             if is_nil s then loop rest line lines else
-             let sp := match rest with [] => [] | _ => sep q end in
-             match add_item f q line (add_sfx it sp) with
-             | Err e => Err e
-             | Ok (line', ls) =>
-               if stop && negb (is_nil ls) then Ok (line, Some rem)
-               else loop rest line' (lines ++ ls)
-             end
-           end
-         end) its line0 []
+    | _ => to_str_loop (add_item f q) (str_of f) (sep q) stop its line0 []
     end
   end.
 
@@ -272,22 +275,23 @@ Inductive raw :=
 | RJ (items : list raw) (sp : str) (w : Z) (cont : rcont) (separable : bool)
 | RCat (a b : raw).
 
+(** the list comprehension [[item for item in items if item is not None]] over already evaluated arguments *)
+Fixpoint collect (l : list (res (option item))) : res (list item) :=
+  match l with
+  | [] => Ok []
+  | Err e :: _ => Err e
+  | Ok o :: t => match collect t with
+                 | Err e => Err e
+                 | Ok l' => Ok (match o with None => l' | Some i => i :: l' end)
+                 end
+  end.
+
 Fixpoint build (r : raw) : res (option item) :=
   match r with
   | RNone => Ok None
   | RStr s => Ok (Some (IStr s))
   | RJ items sp w cont b =>
-    match (fix go (l : list raw) : res (list item) :=
-             match l with
-             | [] => Ok []
-             | x :: t => match build x with
-                         | Err e => Err e
-                         | Ok o => match go t with
-                                   | Err e => Err e
-                                   | Ok l' => Ok (match o with None => l' | Some i => i :: l' end)
-                                   end
-                         end
-             end) items with
+    match collect (map build items) with
     | Err e => Err e
     | Ok l => match norm_cont cont w with
               | None => Err EAssert
@@ -391,38 +395,33 @@ Definition cut_in_literal (pre post : str) : bool :=
 
 (** ** Correspondence entry points *)
 Definition los := list_ascii_of_string.
-Definition eq_res (a : res str) (b : res string) : bool :=
+
+(** strings of the case files: packed 7 bytes per 63-bit word (little endian), first word = length.
+    (Ordinary string literals make coqc spend minutes on parsing the case files.) *)
+Definition byte_of (w : int) : ascii := ascii_of_N (Z.to_N (Uint63.to_Z (Uint63.land w 255))).
+Fixpoint dec_word (k : nat) (w : int) (rest : str) : str :=
+  match k with O => rest | S k' => byte_of w :: dec_word k' (Uint63.lsr w 8) rest end.
+Fixpoint dec_words (n : nat) (ws : list int) : str :=
+  match ws with
+  | [] => []
+  | w :: r => if Nat.leb n 7 then dec_word n w [] else dec_word 7 w (dec_words (n - 7) r)
+  end.
+Definition d (ws : list int) : str :=
+  match ws with [] => [] | n :: r => dec_words (Z.to_nat (Uint63.to_Z n)) r end.
+
+Definition eq_res (a : res str) (b : res str) : bool :=
   match a, b with
-  | Ok x, Ok y => str_eqb x (los y)
+  | Ok x, Ok y => str_eqb x y
   | Err EAssert, Err EAssert | Err EAttr, Err EAttr | Err EType, Err EType => true
   | _, _ => false
   end.
 
-(** raw items with [string] literals, as written by the harness *)
-Inductive sraw :=
-| SNone
-| SStr (s : string)
-| SJ (items : list sraw) (sp : string) (w : Z) (cont : string + string * string) (separable : bool)
-| SCat (a b : sraw).
+Definition chk_jsl (r : raw) (impl : res str) : bool := eq_res (str_raw r) impl.
 
-Definition cont_of (c : string + string * string) : rcont :=
-  match c with inl s => CStr (los s) | inr (a, b) => CPair (los a) (los b) end.
+Definition chk_format_line (w : Z) (indent : str) (cont : rcont) (items : list raw)
+           (comment : option str) (no_wrap no_indent trim_spaces : bool) (impl : res str) : bool :=
+  eq_res (format_line w indent cont items comment no_wrap no_indent trim_spaces) impl.
 
-Fixpoint raw_of (r : sraw) : raw :=
-  match r with
-  | SNone => RNone
-  | SStr s => RStr (los s)
-  | SJ items sp w c b => RJ (map raw_of items) (los sp) w (cont_of c) b
-  | SCat a b => RCat (raw_of a) (raw_of b)
-  end.
-
-Definition chk_jsl (r : sraw) (impl : res string) : bool := eq_res (str_raw (raw_of r)) impl.
-
-Definition chk_format_line (w : Z) (indent : string) (cont : string + string * string) (items : list sraw)
-           (comment : option string) (no_wrap no_indent trim_spaces : bool) (impl : res string) : bool :=
-  eq_res (format_line w (los indent) (cont_of cont) (map raw_of items)
-                      (match comment with Some c => Some (los c) | None => None end) no_wrap no_indent trim_spaces) impl.
-
-Definition chk_chunks (s : string) (impl : list string) : bool :=
-  let m := chunk_list (los s) in
-  Nat.eqb (List.length m) (List.length impl) && forallb (fun xy => str_eqb (fst xy) (los (snd xy))) (combine m impl).
+Definition chk_chunks (s : str) (impl : list str) : bool :=
+  let m := chunk_list s in
+  Nat.eqb (List.length m) (List.length impl) && forallb (fun xy => str_eqb (fst xy) (snd xy)) (combine m impl).
